@@ -52,6 +52,12 @@ func c19scratch() string {
 	return dir
 }
 
+// hostilePaths: names no file reader can read: missing, a directory, a device, a path THROUGH a regular file, a name
+// longer than NAME_MAX, a name with a NUL byte, the empty name.
+func hostilePaths(dir, regularFile string) []string {
+	return []string{filepath.Join(dir, "does-not-exist"), dir, "/dev/null", filepath.Join(regularFile, "x"), filepath.Join(dir, strings.Repeat("n", 300)), filepath.Join(dir, "a\x00b"), ""}
+}
+
 func c19jsonStr(r *rand.Rand) string {
 	s := c13jsonStr(r)
 	if s == "" {
@@ -143,6 +149,12 @@ func (c19) Case(c *core.Ctx) {
 			c.Count("file-name-is-a-symlink")
 		}
 	}
+	if fn == filepath.Join(dir, "c19.data") && r.Intn(8) == 0 {
+		// a legal file name close to NAME_MAX (255 bytes)
+		fn = filepath.Join(dir, strings.Repeat("n", 236+r.Intn(20)))
+		defer os.Remove(fn)
+		c.Count("file-name-near-NAME_MAX")
+	}
 	isJSON := c.Index%2 == 1
 	n := 1 + r.Intn(6)
 	var mvs mxj.Maps
@@ -156,6 +168,15 @@ func (c19) Case(c *core.Ctx) {
 				// the key NewMapJson uses for a top-level JSON list, as the only key of an ordinary Map
 				m = map[string]interface{}{"object": []interface{}{c19jsonVal(r, 1), map[string]interface{}{"k": c19jsonStr(r)}}}
 				c.Count("json:sole-key-object-with-list")
+			}
+			if r.Intn(12) == 0 {
+				d := []int{126, 127, 128, 129, 130, 200, 255, 256, 257}[r.Intn(9)]
+				var deep interface{} = c19jsonStr(r)
+				for j := 0; j < d; j++ {
+					deep = map[string]interface{}{"a": deep}
+				}
+				m = map[string]interface{}{"deep": deep, "k": "v"}
+				c.Count("json:deeply-nested-member")
 			}
 			mvs = append(mvs, m)
 		} else {
@@ -172,6 +193,7 @@ func (c19) Case(c *core.Ctx) {
 	prefix := []string{"", "", " "}[r.Intn(3)]
 	indented := r.Intn(2) == 0
 	c.Eval()
+	failedCalls(c, 8)
 
 	// ---- write (over an existing, longer file in half of the cases: the file must be replaced) ----
 	if r.Intn(2) == 0 {
@@ -463,7 +485,7 @@ func (c19) Case(c *core.Ctx) {
 
 	// ---- bad paths ----
 	if c.Index%4 == 0 {
-		for _, p := range []string{filepath.Join(dir, "does-not-exist"), dir, "/dev/null"} {
+		for _, p := range hostilePaths(dir, fn) {
 			c.Count("bad-path-checks")
 			_, e1 := mxj.NewMapsFromXmlFile(p)
 			_, e2 := mxj.NewMapsFromXmlFileRaw(p)
